@@ -13,10 +13,11 @@ import (
 func validate(n node) error {
 	checked := map[*strct]bool{}
 	seen := map[node]bool{}
+	nullable := nullableProductions(n)
 
 	return visit(n, func(n node, next func() error) error {
 		if n, ok := n.(*strct); ok {
-			if !checked[n] && isLeftRecursive(n) {
+			if !checked[n] && isLeftRecursive(n, nullable) {
 				return fmt.Errorf("left recursion detected on\n\n%s", indent(n.String()))
 			}
 			checked[n] = true
@@ -32,7 +33,7 @@ func validate(n node) error {
 // isLeftRecursive reports whether "root" can be re-entered before any token has been consumed:
 // directly or through other productions, union members, groups, captures, negations and lookahead
 // groups, in any alternative, and also after sub-expressions that can match nothing.
-func isLeftRecursive(root *strct) bool {
+func isLeftRecursive(root *strct, nullable map[*strct]bool) bool {
 	seen := map[*strct]bool{}
 	var leftEdge func(n node) bool
 	leftEdge = func(n node) bool {
@@ -64,7 +65,7 @@ func isLeftRecursive(root *strct) bool {
 				if leftEdge(s.node) {
 					return true
 				}
-				if !matchesEmpty(s.node, map[*strct]bool{}) {
+				if !matchesEmpty(s.node, nullable) {
 					break
 				}
 			}
@@ -82,46 +83,69 @@ func isLeftRecursive(root *strct) bool {
 	return leftEdge(root.expr)
 }
 
-// matchesEmpty reports whether n can match without consuming a token.
-func matchesEmpty(n node, visiting map[*strct]bool) bool {
+// nullableProductions works out, once for the whole grammar, which productions can match without consuming a
+// token (least fixed point: a production is nullable only if that follows from what is already known).
+func nullableProductions(root node) map[*strct]bool {
+	var productions []*strct
+	seen := map[node]bool{}
+	_ = visit(root, func(n node, next func() error) error {
+		if seen[n] {
+			return nil
+		}
+		seen[n] = true
+		if s, ok := n.(*strct); ok {
+			productions = append(productions, s)
+		}
+		return next()
+	})
+	nullable := map[*strct]bool{}
+	for changed := true; changed; {
+		changed = false
+		for _, s := range productions {
+			if !nullable[s] && matchesEmpty(s.expr, nullable) {
+				nullable[s] = true
+				changed = true
+			}
+		}
+	}
+	return nullable
+}
+
+// matchesEmpty reports whether n can match without consuming a token, given the productions known to.
+func matchesEmpty(n node, nullable map[*strct]bool) bool {
 	switch n := n.(type) {
 	case *strct:
-		if visiting[n] {
-			return false
-		}
-		visiting[n] = true
-		defer delete(visiting, n)
-		return matchesEmpty(n.expr, visiting)
+		return nullable[n]
 	case *union:
 		for _, member := range n.disjunction.nodes {
-			if matchesEmpty(member, visiting) {
+			if matchesEmpty(member, nullable) {
 				return true
 			}
 		}
 	case *disjunction:
 		for _, alt := range n.nodes {
-			if matchesEmpty(alt, visiting) {
+			if matchesEmpty(alt, nullable) {
 				return true
 			}
 		}
 	case *sequence:
 		for s := n; s != nil; s = s.next {
-			if !matchesEmpty(s.node, visiting) {
+			if !matchesEmpty(s.node, nullable) {
 				return false
 			}
 		}
 		return true
 	case *capture:
-		return matchesEmpty(n.node, visiting)
+		return matchesEmpty(n.node, nullable)
 	case *group:
 		switch n.mode {
 		case groupMatchZeroOrOne, groupMatchZeroOrMore:
 			return true
 		case groupMatchNonEmpty:
 			// "Non-empty" is judged by the values the group yields, not by the tokens it consumes.
-			return yieldsWithoutConsuming(n.expr, visiting)
+			return yieldsWithoutConsuming(n.expr, nullable)
 		default:
-			return matchesEmpty(n.expr, visiting)
+			return matchesEmpty(n.expr, nullable)
 		}
 	case *lookaheadGroup:
 		return true
@@ -137,27 +161,27 @@ func matchesEmpty(n node, visiting map[*strct]bool) bool {
 // yieldsWithoutConsuming reports whether n can match without consuming a token and still yield a value,
 // which is all a "( ... )!" group asks for: a capture of something that matched nothing yields one, as do
 // a nested production that matched nothing, a reference to EOF and the empty literal.
-func yieldsWithoutConsuming(n node, visiting map[*strct]bool) bool {
+func yieldsWithoutConsuming(n node, nullable map[*strct]bool) bool {
 	switch n := n.(type) {
 	case *strct, *union, *capture, *reference, *literal:
-		return matchesEmpty(n, visiting)
+		return matchesEmpty(n, nullable)
 	case *disjunction:
 		for _, alt := range n.nodes {
-			if yieldsWithoutConsuming(alt, visiting) {
+			if yieldsWithoutConsuming(alt, nullable) {
 				return true
 			}
 		}
 	case *sequence:
 		yields := false
 		for s := n; s != nil; s = s.next {
-			if !matchesEmpty(s.node, visiting) {
+			if !matchesEmpty(s.node, nullable) {
 				return false
 			}
-			yields = yields || yieldsWithoutConsuming(s.node, visiting)
+			yields = yields || yieldsWithoutConsuming(s.node, nullable)
 		}
 		return yields
 	case *group:
-		return yieldsWithoutConsuming(n.expr, visiting)
+		return yieldsWithoutConsuming(n.expr, nullable)
 	}
 	return false
 }
